@@ -110,6 +110,12 @@ CONFIGS = {
         {"L1": ["r.a.x"], "L2": ["r.b"], "L3": ["r.c"]},
         {"L1": ["r.a"], "L2": ["r.b"], "L3": ["r.c"]},
     ],
+    "TX": [
+        {"L1": ["r.a"], "L2": ["x"]},
+        {"L1": ["x"], "L2": ["r.b"]},
+        {"L1": ["x.y"], "L2": ["r.a", "r.b"]},
+        {"L1": ["r.a", "x"], "L2": ["r.b"]},
+    ],
     "T6": [
         {"L1": ["r.a.x", "r.b.x"], "L2": ["r.a.y"], "L3": ["r.c"]},
         {"L1": ["r.a"], "L2": ["r.b.x", "r.c"]},
@@ -148,7 +154,9 @@ def exh_shard(arg, stt, deadline) -> None:
 @st.composite
 def cases(draw):
     tree = draw(RS.trees(root="q", max_modules=14, min_modules=5))
-    order = draw(st.permutations([m for m in tree if m != tree[0]]))
+    if draw(st.integers(0, 2)) == 0:
+        tree = sorted(M.closure(set(tree) | set(draw(st.lists(st.sampled_from(["x", "x.y", "x.y.z", "lib", "lib.u"]), min_size=1, max_size=3, unique=True)))))
+    order = draw(st.permutations([m for m in tree if m != "q"]))
     units = []
     for n in order:
         if all(not M.related(n, u) for u in units):
@@ -205,4 +213,6 @@ def run(ctx) -> None:
                        "T4: all 2048 import relations x 5 layer partitions x all named/regex choices x all layer rules")
         ctx.exhaustive("T6-layer-configs", MOD, "exh_shard", [("T6", i, 128, 2) for i in range(128)],
                        "T6: all import relations with <= 2 of 27 candidate edges x 3 layer partitions x all named/regex choices x all layer rules")
+    ctx.exhaustive("TX-top-level-layer-modules", MOD, "exh_shard", [("TX", i, nsh, 2 if ctx.tier == "quick" else 3) for i in range(nsh)],
+                   "TX (second top-level package x): import relations with <= 2 (thorough 3) edges x 4 partitions listing single-component modules x named/regex x all layer rules")
     ctx.random("random-layers", MOD, "strategy", "check_case", 12000 if ctx.tier == "quick" else 250000)
